@@ -167,6 +167,19 @@ CLAIMED = {
          "server links x/net v0.19.0's copy of hpack, not this one. Found and fixed D6 and D12"),
    technique="Lean 4 theorems over a full executable model + regenerated tables + differential with round-trip / fragmentation oracles",
    design='7/C18'),
+ 'C19': dict(
+   text=("Proof (Lean 4) over a model of the whole frame codec: no frame above the read limit is returned (read_bounded); every "
+         "rejection by a frame parser is a connection or stream error with PROTOCOL / FLOW_CONTROL / FRAME_SIZE code, never a bare "
+         "I/O error (parse_error_is_h2_error), with the RFC's code for fixed-length, short-frame, stream-zero and zero-increment "
+         "defects and for illegal HEADERS/CONTINUATION interleavings (fixed_length_frames, short_frames, stream_zero_rules, "
+         "window_update_nonzero, continuation_discipline); the 9-byte header round-trips for every type/flags/31-bit stream id and "
+         "payload below 2^24 (header_roundtrip) with complete write->read round trips proved for WINDOW_UPDATE and RST_STREAM; the "
+         "reader is a total function. Exact differential on all Write* methods and on the reader over written / raw / mutated / "
+         "truncated bytes under several read limits; ORACLES: read-back of everything the writer accepts, CONTINUATION reassembly"),
+   note=("PARTIAL: per-type write->read round trips beyond WINDOW_UPDATE/RST_STREAM are decided by the read-back oracle. Trusted: Lean "
+         "kernel + standard axioms; harness. Found and fixed D13"),
+   technique="Lean 4 theorems over a full executable codec model + differential with read-back oracle",
+   design='7/C19'),
  'C20': dict(
    text=("Proof (Lean 4) for the round-robin scheduler model (writeQueue, Consume, ring) and the random scheduler as an arbitrary choice "
          "among ready streams: control frames first (control_first_*), every released DATA piece within stream window, connection "
